@@ -25,7 +25,7 @@ CLAIMED["C13"] = ("ChunkCache",
     "eviction choice and find_match choice are logged, not predicted; I/O errors may end any operation.",
     "5.7, 6 C13")
 
-_UP_TECH = "TLC model checking of the pipeline design model Upload.tla (dedup / aggregation / background puts / finalize; negative control FixF1=FALSE); model behaviours (Gen_Upload) and randomized multi-session scenarios replayed through FileUploadSession over an observing, fault-injecting store under five size-limit configurations; recorded events validated against the observation machine UploadObs.tla via Trace_Upload.tla with the clauses of this property enabled"
+_UP_TECH = "TLC model checking of the pipeline design model Upload.tla (dedup / aggregation / background puts / finalize; negative control FixF1=FALSE); model behaviours (Gen_Upload) and randomized multi-session scenarios replayed through FileUploadSession over an observing, fault-injecting store under ten size-limit / concurrency configurations (several users with separate shard caches and global dedup, several processes sharing one cache, saturated upload permits, a long session history under an index cap), also through the real RemoteClient against a loopback server whose own decoder reads what goes over the wire (keyed global-dedup shards included) and through the top-level API data_client::upload_async / download_async; recorded events validated against the observation machine UploadObs.tla via Trace_Upload.tla with the clauses of this property enabled"
 _UP_NOTE = "hashes are interned ids; reference hashes come from the harness's independent implementations (merkleref, sha2, gearref); store = LocalClient behind an observing client; limits via the repository's HF_XET_* variables (debug builds)."
 for _pid, _text in {
     "C01": "Every UpDownload event (whole file and byte ranges through the pointer's string form) must carry an output whose interned digest equals that of the expected slice, and every uploaded file record must flatten, through the xorbs actually stored, to the file's chunk-id sequence.",
